@@ -1,8 +1,7 @@
-(* C03: the remaining scalar functors of nfl::ops (division-based mulmod / muladd, 64-bit Barrett-Newton muladd),
-   the row hypothesis under which all functor theorems hold, and the theorems closed over the generated tables. *)
+(* C03: the remaining scalar functors of nfl::ops (division-based mulmod / muladd, 64-bit Barrett-Newton muladd) and
+   the row hypothesis under which all functor theorems hold.  No dependence on the generated tables (see ScalarClosed.v). *)
 From Coq Require Import ZArith Znumtheory Lia List Bool.
-From NTT Require Import Functors NumTheoryMC TablesOK Shards C06Closed.
-From NTT.gen Require Import Params.
+From NTT Require Import Functors.
 Import ListNotations.
 Local Open Scope Z_scope.
 
@@ -103,41 +102,3 @@ Proof.
   - apply Z.mod_pos_bound; lia.
 Qed.
 
-(* ---------- closing over the generated tables ---------- *)
-Lemma row_valid_Hrow w bits maxdeg r : 3 < w -> bits = w - 2 -> row_valid w bits maxdeg r -> Hrow w (fst (fst (fst r))).
-Proof.
-  intros Hw Hb Hv. destruct Hv as [_ Hs _ _ _ _ _ _ _ _]. subst bits. split; [exact Hw|].
-  replace (w - 3) with (w - 2 - 1) by lia. exact Hs.
-Qed.
-
-Theorem functors_exact_tables :
-  (forall r, In r rows16 -> functors_exact 16 (fst (fst (fst r)))) /\
-  (forall r, In r rows32 -> functors_exact 32 (fst (fst (fst r)))) /\
-  (forall r, In r rows64 -> functors_exact 64 (fst (fst (fst r)))).
-Proof.
-  destruct tables_valid as (T16 & T32 & T64).
-  assert (W1 : w16 = 16) by reflexivity. assert (W2 : w32 = 32) by reflexivity. assert (W3 : w64 = 64) by reflexivity.
-  split; [|split]; intros r Hr; apply functors_exact_of_row.
-  - apply (row_valid_Hrow 16 bits16 maxdeg16); [lia | rewrite (tv_bits _ _ _ _ _ T16), W1; reflexivity | rewrite <- W1; apply (tv_rows _ _ _ _ _ T16 r Hr)].
-  - apply (row_valid_Hrow 32 bits32 maxdeg32); [lia | rewrite (tv_bits _ _ _ _ _ T32), W2; reflexivity | rewrite <- W2; apply (tv_rows _ _ _ _ _ T32 r Hr)].
-  - apply (row_valid_Hrow 64 bits64 maxdeg64); [lia | rewrite (tv_bits _ _ _ _ _ T64), W3; reflexivity | rewrite <- W3; apply (tv_rows _ _ _ _ _ T64 r Hr)].
-Qed.
-
-Theorem functors64_tables : forall r, In r rows64 ->
-  let p := fst (fst (fst r)) in let pn := snd (fst (fst r)) in
-  (forall x y, 0 <= x < p -> 0 <= y < p -> mulmod64 p pn x y = (x * y) mod p) /\
-  (forall z x y, 0 <= z < p -> 0 <= x < p -> 0 <= y < p -> muladd64 p pn z x y = (x * y + z) mod p).
-Proof.
-  intros r Hr p pn. pose proof newton64_ok as N. rewrite forallb_forall in N. specialize (N r Hr).
-  destruct r as [[[p' pn'] g] ik]. cbn [fst snd] in p, pn. subst p pn.
-  repeat (apply andb_true_iff in N; destruct N as [N ?]).
-  repeat match goal with
-  | h : (_ <=? _) = true |- _ => apply Z.leb_le in h
-  | h : (_ <? _) = true |- _ => apply Z.ltb_lt in h
-  | h : (_ =? _) = true |- _ => apply Z.eqb_eq in h
-  end.
-  assert (HR : Hrow64 p' pn') by (unfold Hrow64; change B128 with (2 ^ 128); lia).
-  destruct HR as (A1 & A2 & A3). split; intros.
-  - apply mulmod64_correct; assumption.
-  - apply muladd64_correct; [unfold Hrow64; auto | assumption..].
-Qed.
